@@ -435,7 +435,8 @@ def judge(d):
                 cat = Molecules.concat([g for _, g in groups])
                 compare(f"{tag} concat(groups)", cat, MTable(cols, list(mt.rows)), out, ordered=False)
         elif name == "cutby":
-            src = [c for c in cols if COLS.get(c) in ("float",) and all(r["f"][c] is not None for r in mt.rows)]
+            # (columns with nulls included: the rows without a value form a group of their own, whatever its key)
+            src = [c for c in cols if COLS.get(c) in ("float",) and any(r["f"][c] is not None for r in mt.rows)]
             if not src or n == 0:
                 continue
             c = src[op["ci"] % len(src)]
@@ -443,7 +444,10 @@ def judge(d):
             groups = list(real.cutby(c, bins))
             seen = []
             for edges, sub in groups:
-                rows = [r for r in mt.rows if edges.gt < r["f"][c] <= edges.le]
+                if edges.gt != edges.gt:  # NaN edges: the null group
+                    rows = [r for r in mt.rows if r["f"][c] is None]
+                else:
+                    rows = [r for r in mt.rows if r["f"][c] is not None and edges.gt < r["f"][c] <= edges.le]
                 compare(f"{tag} bin {edges}", sub, MTable(cols, rows), out)
                 seen.extend(int(round(float(v))) for v in sub.pos[:, 0])
             if sorted(seen) != sorted(r["uid"] for r in mt.rows):
